@@ -85,8 +85,9 @@ pub fn verif_classes() -> Vec<Class> {
     }
     dst.properties.push(prop("tfont", "QFont", true, true, None, false));
     dst.properties.push(prop("tpol", "QSizePolicy", true, true, None, false));
-    // names that collide by concatenation with object names (C16/C10)
-    for n in ["ab", "b", "b1", "x1"] {
+    // names that collide by concatenation with object names (C16/C10); `xTi` of object `d` and
+    // `ti` of object `dX` both capitalise to `DXTi`
+    for n in ["ab", "b", "b1", "x1", "xTi"] {
         dst.properties.push(rw(n, "int"));
         dst.signals.push(sig(&format!("{n}Changed"), &[]));
     }
@@ -107,6 +108,16 @@ pub fn verif_classes() -> Vec<Class> {
         // true overload
         sig("ov", &["int"]),
         sig("ov", &["QString"]),
+        // two default arguments: three entries, as moc emits for `void rng(int = 0, int = 99)`
+        sig("rng", &[]),
+        sig("rng", &["int"]),
+        sig("rng", &["int", "int"]),
+        // a default-argument pair plus a true overload: ambiguous, handlers must be rejected
+        sig("mix", &[]),
+        sig("mix", &["int"]),
+        sig("mix", &["QString"]),
+        // `xFired` of object `s` and `fired` of object `sX` both capitalise to `SXFired`
+        sig("xFired", &[]),
     ]);
     vsig.slots.extend([
         slot("doIt", "void", &[]),
